@@ -88,6 +88,13 @@ func (x *deathWatch) handleTerminated(ctx *ReceiveContext) error {
 	actorTree := actorSys.tree()
 	if node, ok := actorTree.node(path.String()); ok {
 		pid := node.value()
+		// deleteNode clears the node's value before it unlinks the node, so a
+		// concurrent delete (a supervisor stop directive or a parent's subtree
+		// delete) can leave us with a node that no longer carries its PID: the
+		// resource is already being freed by that path
+		if pid == nil {
+			return nil
+		}
 
 		if !pid.isStateSet(systemState) {
 			actorSys.decreaseActorsCounter()
